@@ -201,10 +201,14 @@ var flatScalarTypes = []reflect.Type{gen.TString, gen.TString, gen.TInt, gen.TIn
 
 func c02FlatCase(res *core.Result, rng *rand.Rand, idx int) {
 	env := &ref.Env{}
+	usedExist := false
 	switch rng.Intn(3) {
 	case 0: // Var
 		t := append(append([]reflect.Type{}, flatScalarTypes...), reflect.TypeOf([]int(nil)), reflect.TypeOf([]string(nil)))[rng.Intn(len(flatScalarTypes)+2)]
 		rules := gen.RuleList(rng, t, 5, "v", gen.MsgMixed, true)
+		if rng.Intn(8) == 0 {
+			rules = strings.Trim(rules+","+[]string{"exist", "either=1", "botheq=2"}[rng.Intn(3)], ",")
+		}
 		v := gen.TunedLeaf(rng, t, rules, 0.1)
 		if rules == "" || strings.Trim(rules, ",") == "" {
 			return
@@ -230,6 +234,15 @@ func c02FlatCase(res *core.Result, rng *rand.Rand, idx int) {
 		for k := 0; k < n; k++ {
 			key := fmt.Sprintf("k%d", k)
 			r := gen.RuleList(rng, t, 4, key, gen.MsgMixed, true)
+			if rng.Intn(8) == 0 && !usedExist { // a rule the map validator does not support: one clause, the others still run
+				// (the clause carries no path, so only one per case: identical clauses could not be ordered)
+				usedExist = true
+				if rng.Intn(2) == 0 {
+					r = strings.Trim("exist,"+r, ",")
+				} else {
+					r = strings.Trim(r+",exist", ",")
+				}
+			}
 			if strings.Trim(r, ",") != "" {
 				rules[key], rm[key] = r, r
 			}
@@ -274,6 +287,14 @@ func c02FlatCase(res *core.Result, rng *rand.Rand, idx int) {
 			key := fmt.Sprintf("k%d", rng.Intn(4)) // duplicates possible
 			if _, ok := rules[key]; !ok {
 				r := gen.RuleList(rng, gen.TString, 4, key, gen.MsgMixed, true)
+				if rng.Intn(8) == 0 && !usedExist {
+					usedExist = true
+					if rng.Intn(2) == 0 {
+						r = strings.Trim("exist,"+r, ",")
+					} else {
+						r = strings.Trim(r+",exist", ",")
+					}
+				}
 				if strings.Trim(r, ",") != "" {
 					rules[key], rm[key] = r, r
 				}
